@@ -2343,17 +2343,15 @@ impl VmGreenThread {
                 let read_val = chan_obj.read_value();
                 match read_val {
                     Some(read_val) => {
-                        #[cfg(abra_verif)]
-                        let verif_src = read_val;
                         let read_val = read_val.deep_copy(self);
                         #[cfg(abra_verif)]
                         verif::ev(verif::T_CHAN, || {
                             format!(
-                                r#"{{"e":"chan_read","tid":{},"ch":{},"got":true,"src":{},"copy":{},"len":{}}}"#,
+                                r#"{{"e":"chan_read","tid":{},"ch":{},"got":true,"copy":{},"show":{:?},"len":{}}}"#,
                                 verif::tid_of(self.id),
                                 verif::chan_id(Arc::as_ptr(&chan_obj.data) as usize),
-                                verif::val_json(&verif_src),
                                 verif::val_json(&read_val),
+                                verif::val_show(&read_val),
                                 chan_obj.data.lock().unwrap().len()
                             )
                         });
@@ -2384,10 +2382,11 @@ impl VmGreenThread {
                 #[cfg(abra_verif)]
                 verif::ev(verif::T_CHAN, || {
                     format!(
-                        r#"{{"e":"chan_write","tid":{},"ch":{},"val":{},"len":{}}}"#,
+                        r#"{{"e":"chan_write","tid":{},"ch":{},"val":{},"show":{:?},"len":{}}}"#,
                         verif::tid_of(self.id),
                         verif::chan_id(Arc::as_ptr(&chan.data) as usize),
                         verif::val_json(&val),
+                        verif::val_show(&val),
                         chan.data.lock().unwrap().len()
                     )
                 });
